@@ -11,10 +11,16 @@ Facts about how a configuration travels (C08, C20):
   its configuration works with the default one, whose use_jsonclass is on).
 """
 import ast
+import os
+import sys
 
 from __main__ import Fact, lean_str, lean_list
 
+sys.path.insert(0, os.path.dirname(os.path.abspath(__file__)))
+import normalise_jc as NZ  # noqa: E402
+
 PROPERTIES = ["C08", "C20"]
+KEEP = ("_find_fields", "_slots_finder")  # see jsonclass.py
 
 MODULES = ("jsonrpc", "SimpleJSONRPCServer")
 CONFIG_PARAMS = ("config", "json_config")
@@ -87,7 +93,7 @@ def _source_kind(expr, attr):
 def config_copy(src):
     """(sorted attributes of __init__, [(attribute, kind)] sorted) or (None, None)."""
     init = src.func("config", "Config.__init__")
-    cp = src.func("config", "Config.copy")
+    cp = NZ.normalised(src, "config", "Config.copy")  # private helpers of the class inlined
     if init is None:
         return None, None
     stores = _init_stores(init)
@@ -143,22 +149,30 @@ def config_copy(src):
 
 # ---- the field filter of jsonclass.dump -----------------------------------------------------------------------------
 
-def _conjuncts(test):
-    if isinstance(test, ast.BoolOp) and isinstance(test.op, ast.And):
-        out = []
-        for v in test.values:
-            out.extend(_conjuncts(v))
-        return out
-    return [test]
+def _is_known_types(node, single):
+    """`known_types`, i.e. SUPPORTED_TYPES + tuple(config.serialize_handlers): by that name, written in place, or
+    through a local bound once (whatever it is called)."""
+    if _is_name(node, "known_types") and "known_types" not in single:
+        return True
+    node = NZ.resolve(node, single)
+    if not (isinstance(node, ast.BinOp) and isinstance(node.op, ast.Add)):
+        return False
+    parts = [NZ.resolve(node.left, single), NZ.resolve(node.right, single)]
+    return any(_is_name(p, "SUPPORTED_TYPES") for p in parts) and any(
+        isinstance(p, ast.Call) and _is_name(p.func, "tuple") and len(p.args) == 1 and isinstance(p.args[0], ast.Attribute)
+        and p.args[0].attr == "serialize_handlers" for p in parts)
 
 
 def field_filter_order(dump):
     """The conditions under which a field value is dumped, in evaluation order, for the loop that reads
-    `<value> = getattr(obj, <name>)`: "isinstance-known" for isinstance(<value>, known_types), "not-in-ignore" for
-    `<value> not in <list>`, the source text of anything else.  Nested `if`s without `else` count as `and`."""
+    `<value> = getattr(obj, <name>)`: "isinstance-known" for isinstance(<value>, known_types) found true,
+    "not-in-ignore" for `<value> in <list>` found false, the source text of anything else (with `not` in front when it
+    has to be false).  These are the conditions met on the path from the top of the loop body to the recursive
+    `dump(<value>, …)`, whatever the spelling (one `and`, nested `if`s, guard clauses with `continue`, `elif`)."""
     if dump is None:
         return None
-    for loop in ast.walk(dump):
+    single = NZ.single_assignments(dump)
+    for loop in NZ.dfs_own(dump):
         if not isinstance(loop, ast.For):
             continue
         value = None
@@ -169,27 +183,30 @@ def field_filter_order(dump):
                 value = st.targets[0].id
         if value is None:
             continue
-        conds = []
-        block = loop.body
-        while True:
-            ifs = [st for st in block if isinstance(st, ast.If)]
-            if len(ifs) != 1 or ifs[0].orelse:
-                break
-            conds.extend(_conjuncts(ifs[0].test))
-            block = ifs[0].body
-        out = []
-        for c in conds:
-            if isinstance(c, ast.Call) and _is_name(c.func, "isinstance") and len(c.args) == 2 and _is_name(c.args[0], value) \
-                    and _is_name(c.args[1], "known_types"):
-                out.append("isinstance-known")
-            elif isinstance(c, ast.Compare) and len(c.ops) == 1 and isinstance(c.ops[0], ast.NotIn) and _is_name(c.left, value):
-                out.append("not-in-ignore")
-            elif isinstance(c, ast.UnaryOp) and isinstance(c.op, ast.Not) and isinstance(c.operand, ast.Compare) \
-                    and len(c.operand.ops) == 1 and isinstance(c.operand.ops[0], ast.In) and _is_name(c.operand.left, value):
-                out.append("not-in-ignore")
-            else:
-                out.append(ast.unparse(c))
-        return out
+
+        def is_dump_of_value(n):
+            return isinstance(n, ast.Call) and _is_name(n.func, "dump") and n.args and _is_name(n.args[0], value)
+
+        try:
+            walk = NZ.Walk(loop.body, is_dump_of_value)
+        except NZ.TooComplex:
+            return None
+        if not walk.hits:
+            continue
+
+        def describe(e, outcome):
+            if isinstance(e, ast.Call) and _is_name(e.func, "isinstance") and len(e.args) == 2 and _is_name(e.args[0], value) \
+                    and _is_known_types(e.args[1], single) and outcome:
+                return "isinstance-known"
+            if isinstance(e, ast.Compare) and len(e.ops) == 1 and isinstance(e.ops[0], ast.In) and _is_name(e.left, value) \
+                    and not outcome:
+                return "not-in-ignore"
+            return ("" if outcome else "not ") + ast.unparse(e)
+
+        paths = [[describe(e, o) for e, o, _ in conds] for conds, _ in walk.hits]
+        if len(paths) == 1:
+            return paths[0]
+        return ["%d paths" % len(paths)] + [" & ".join(p) for p in paths]
     return None
 
 
@@ -302,16 +319,23 @@ def config_sinks(src):
 
 
 COVERED_ELSEWHERE = ("dump", "dumps", "load", "loads", "Fault")  # Generated.configCallSites
+CONFIG_POS = {"dump": 6, "dumps": 7, "load": 1, "loads": 1, "Fault": 4}  # position of `config` in their signatures
 
 
-def config_passing(src):
-    """Every call, in the two modules, of a class or function of the two modules that has a configuration parameter —
-    other than the five callees of `configCallSites` and the `Base.__init__` calls summarised by `configSinks`:
-    (module, enclosing class, enclosing function, callee, expression passed — "" when none)."""
-    classes = _classes(src)
-    if classes is None:
-        return None
-    table = {}  # callee name -> (param, is method)
+def _classes_of(trees):
+    out = {}
+    for mod in MODULES:
+        for n in trees[mod].body:
+            if isinstance(n, ast.ClassDef):
+                out[(mod, n.name)] = n
+    return out
+
+
+def _callee_table(trees):
+    """callee name -> ((parameter name, positional index), is a method): the classes (through their constructor, own
+    or inherited), methods and functions of the two modules that take a configuration."""
+    classes = _classes_of(trees)
+    table = {}
     for (mod, name), cls in classes.items():
         init = _init_of(cls)
         if init is None:
@@ -331,11 +355,84 @@ def config_passing(src):
                 if p is not None:
                     table[n.name] = (p, True)
     for mod in MODULES:
-        for n in src.module(mod).body:
+        for n in trees[mod].body:
             if isinstance(n, ast.FunctionDef):
                 p = _config_param(n, False)
                 if p is not None:
                     table[n.name] = (p, False)
+    return table
+
+
+def _handed_over(call, table):
+    """The expressions (AST) a call passes as a configuration: to dump/dumps/load/loads/Fault, to a callee of the
+    table, or along with a method of the table handed to someone else (pool.enqueue(self._dispatch, …, config))."""
+    out = []
+    f = call.func
+    bare = f.id if isinstance(f, ast.Name) else (f.attr if isinstance(f, ast.Attribute) and _is_name(f.value, "jsonrpclib") else None)
+    if bare in CONFIG_POS:
+        out.extend(k.value for k in call.keywords if k.arg == "config")
+        out.extend(call.args[CONFIG_POS[bare]:CONFIG_POS[bare] + 1])
+    name = f.id if isinstance(f, ast.Name) else (f.attr if isinstance(f, ast.Attribute) else None)
+    if name in table and name not in COVERED_ELSEWHERE:
+        pname, idx = table[name][0]
+        out.extend(k.value for k in call.keywords if k.arg == pname)
+        if idx is not None:
+            out.extend(call.args[idx:idx + 1])
+    for i, a in enumerate(call.args):
+        an = a.attr if isinstance(a, ast.Attribute) else None
+        if an in table and table[an][1] and name not in table:
+            idx = table[an][0][1]
+            rest = call.args[i + 1:]
+            if idx is not None:
+                out.extend(rest[idx:idx + 1])
+    return out
+
+
+_TRANSPARENT = {}
+
+
+def transparent_modules(src):
+    """{module: tree} for jsonrpc.py and SimpleJSONRPCServer.py in which the *transparent* private helpers are inlined
+    into their callers (normalise_jc) and, once no longer mentioned anywhere, removed.  A helper is transparent when
+    it hands one of its own parameters (never reassigned, not `self`) on as a configuration: what it hands on is
+    decided by its callers, so its call sites say nothing where they stand — after inlining they are call sites of
+    each caller, with the expression that caller provides (nothing, when the caller or the helper drops it).
+    Helpers that read the configuration from `self` are units of their own and stay.  None when a module is missing."""
+    key = id(src)
+    if key in _TRANSPARENT:
+        return _TRANSPARENT[key][1]
+    trees = dict((mod, src.module(mod)) for mod in MODULES)
+    res = None
+    if all(t is not None for t in trees.values()):
+        table = _callee_table(trees)
+
+        def transparent(owner, fn):
+            params = set(a.arg for a in fn.args.posonlyargs + fn.args.args + fn.args.kwonlyargs) - {"self", "cls"}
+            params -= set(n.id for n in ast.walk(fn) if isinstance(n, ast.Name) and not isinstance(n.ctx, ast.Load))
+            return any(isinstance(m, ast.Name) and m.id in params
+                       for n in ast.walk(fn) if isinstance(n, ast.Call)
+                       for e in _handed_over(n, table) for m in ast.walk(e))
+
+        res = {}
+        for mod in MODULES:
+            tree, _ = NZ.inlined_module(src, mod, only=transparent)
+            for n in ast.walk(tree):
+                if isinstance(n, ast.FunctionDef):
+                    NZ.Canon(n).aliases()  # `cfg = self._config` … config=cfg  ->  config=self._config
+            res[mod] = tree
+    _TRANSPARENT[key] = (src, res)
+    return res
+
+
+def config_passing(src):
+    """Every call, in the two modules, of a class or function of the two modules that has a configuration parameter —
+    other than the five callees of `configCallSites` and the `Base.__init__` calls summarised by `configSinks`:
+    (module, enclosing class, enclosing function, callee, expression passed — "" when none).  Read on
+    `transparent_modules` (a private helper that merely forwards a parameter is part of its callers)."""
+    trees = transparent_modules(src)
+    if trees is None:
+        return None
+    table = _callee_table(trees)
     out = set()
     for mod in MODULES:
         def visit(node, cls, fn):
@@ -361,7 +458,7 @@ def config_passing(src):
                             out.add((mod, cls, fn, "&" + an, expr))
                 visit(ch, cls, fn)
 
-        visit(src.module(mod), "", "")
+        visit(trees[mod], "", "")
     return sorted(out)
 
 
@@ -376,7 +473,7 @@ def facts(src):
                     "the same name, through the constructor parameter stored into it, a direct store or a setattr/getattr loop), "
                     "\"copied\" (self.<attribute>.copy()), \"default\" (nothing passed: the constructor's default), else the "
                     "expression", json_value=None if kinds is None else [list(x) for x in kinds]))
-    order = field_filter_order(src.func("jsonclass", "dump"))
+    order = field_filter_order(NZ.normalised(src, "jsonclass", "dump", KEEP))
     out.append(Fact("fieldFilterOrder", "List String", None if not order else lean_list(lean_str(x) for x in order), ["C20"],
                     "jsonclass.dump, field loop: the conditions under which a field value is dumped, in evaluation order",
                     json_value=order))
